@@ -106,8 +106,11 @@ func (s *SelfManaged) Receive(c *actor.Context) {
 	case memberPing:
 		s.handleMemberPing(c)
 	case memberLeave:
-		member := s.members.GetByHost(msg.ListenAddr)
-		s.removeMember(member)
+		// The address may belong to no member (anymore): an unreachable event is
+		// published for every address a stream writer fails to reach.
+		if member := s.members.GetByHost(msg.ListenAddr); member != nil {
+			s.removeMember(member)
+		}
 	case *actor.Ping:
 	case actor.Initialized:
 		_ = msg
